@@ -544,7 +544,7 @@ Proof.
           (do attrs' <- (fix go (l : list (str * jv)) : res (list (str * ty)) :=
              match l with [] => Ok [] | kv :: l' => do t <- type_of_json norm (snd kv); do r <- go l'; Ok ((fst kv, t) :: r) end) m;
            do opt <- strings_of_json (JArr (map JStr (o :: opt')));
-           do t <- mk_object norm attrs' opt; Ok t).
+           do t <- match mk_object norm attrs' opt with Panic => Err OtherError | r => r end; Ok t).
         rewrite F2. cbn [bind]. rewrite strings_of_json_strs. cbn [bind].
         rewrite mk_object_sorted; auto.
   - simpl in C. discriminate.
